@@ -169,6 +169,14 @@ def selection_part(ck, tier):
                         b = np.array(gp.hp_bounds, dtype=float)
                         centre = 0.5 * (b[:, 0] + b[:, 1])
                         s_res, s_cen = float(gp.model_selector(hp)), float(gp.model_selector(centre))
+                        # the criterion the optimiser is given: its value-and-gradient form returns the chosen criterion's value and gradient
+                        want_fn = gp.loo_likelihood if cv else gp.marginal_likelihood
+                        probe = centre + 0.1 * width_ if (width_ := b[:, 1] - b[:, 0]) is not None else centre
+                        v_sel, g_sel = gp.model_selector_gradient(probe)
+                        v_own = float(want_fn(probe))
+                        g_own = np.asarray((gp.loo_likelihood_gradient if cv else gp.marginal_likelihood_gradient)(probe)[1], dtype=float)
+                        wired = bool(abs(float(v_sel) - v_own) <= 1e-9 * max(1.0, abs(v_own)) and float(gp.model_selector(probe)) == v_own
+                                     and np.array_equal(np.asarray(g_sel, dtype=float), g_own))
                 except Exception as ex:
                     ck.violation("automatic hyper-parameter selection raised", {"case": case, "optimizer": opt, "cross_val": cv, "error": repr(ex)[:300]},
                                  site="GpRegressor.select")
@@ -181,6 +189,12 @@ def selection_part(ck, tier):
                 elif user == "mean":
                     inb = inb and b.shape[0] == nm + nk and bool(np.allclose(b[:nm], np.array(ub_m)))
                 better = bool(s_res >= s_cen - 1e-9 * max(1.0, abs(s_cen)))
+                if not wired:
+                    ck.violation("the selection criterion handed to the optimiser (value, and value-and-gradient form) is the requested one: "
+                                 + ("leave-one-out score" if cv else "marginal likelihood"),
+                                 {"case": case, "cross_val": cv, "optimizer": opt, "criterion_value": v_own, "value_from_gradient_form": float(v_sel),
+                                  "gradient_from_gradient_form": np.asarray(g_sel, dtype=float), "gradient_of_the_criterion": g_own},
+                                 site="GpRegressor.model_selector")
                 events.append({"opt": "bfgs" if opt == "bfgs1" else opt, "cv": cv, "inbounds": inb, "better": better})
                 idents.append({"case": case, "n": n, "d": d, "optimizer": opt, "cross_val": cv, "kernel": kern.__name__, "mean": mean.__name__, "bounds_given_by_user_for": user,
                                "hyperpars": hp.tolist(), "bounds": b.tolist(), "score": s_res, "score_at_centre": s_cen})
